@@ -113,7 +113,8 @@ struct Ex {
       unsigned pi = i - skip;
       if (i < skip || pi >= FD->getNumParams()) { s += 'v'; continue; }
       QualType T = FD->getParamDecl(pi)->getType();
-      if (T->isReferenceType()) s += T.getNonReferenceType().isConstQualified() ? 'c' : 'm';
+      if (T->isRValueReferenceType()) s += 'v';
+      else if (T->isReferenceType()) s += T.getNonReferenceType().isConstQualified() ? 'c' : 'm';
       else if (T->isPointerType()) s += T->getPointeeType().isConstQualified() ? 'q' : 'p';
       else s += 'v';
     }
